@@ -134,6 +134,7 @@ func c02(c *Ctx) {
 // truncFamily: truncateDatabase resizes, syncs and resets the checksum cache unconditionally (shared by C01, C02, C04, C17).
 func (c *Ctx) truncFamily(prefix string) {
 	p := c.P
+	c.WideOffsets(prefix+"/offsets-64bit", []string{"litefs"})
 		td := "litefs.(*DB).truncateDatabase"
 		c.OnlyGuards(prefix+"/file-always-resized", td, p.PlainCalls("os.(*File).Truncate"), nil, 1, "truncateDatabase always resizes the file to the requested page count - unconditionally (the in-memory page count is not the file size)", "pages appended by an aborted transaction stay in the file when the resize is skipped because the logical size 'already matches': two nodes at the same position then have different database sizes")
 		c.ExpectAll(prefix+"/size", c.CallArgs(td, p.PlainCalls("os.(*File).Truncate"), 1), pat("(p2 * p0.pageSize)"), 1, "the new size is pageN * pageSize", "")
